@@ -12,6 +12,7 @@ cells : rings or `-` (no geometry) joined by `|`
 `convex <ring>`      → `1` | `0`   (`isConvexExact`)
 `fansorted <ring>`   → `1` | `0`   (hypothesis of `fan_oriented` / `fan_no_overlap`, either orientation)
 `convexcell <ring>`  → `1` | `0`   (hypothesis of `fan_inside`, either orientation)
+`strictconvex <ring>`→ `1` | `0`   (hypotheses of `fan_partition`: no repeated vertex, ≥ 3 vertices, StrictConvex, either orientation)
 `prop <ring> <tris>` → `OK` | `FAIL:<clause>`: conclusions of the C14 theorems evaluated on a
                        triangle list (tris = `x,y;x,y;x,y` joined by `+`): count = n-2,
                        Σ signed area = shoelace area, Σ |area| = |shoelace area|
@@ -93,6 +94,11 @@ def step (line : String) : String :=
     match parseRing? r with
     | none => "BAD"
     | some p => bit (decide (FanSorted 1 p) || decide (FanSorted (-1) p))
+  | ["strictconvex", r] =>
+    match parseRing? r with
+    | none => "BAD"
+    | some p => bit (decide (p.Nodup) && decide (3 ≤ p.length) &&
+        (decide (StrictConvex 1 p) || decide (StrictConvex (-1) p)))
   | ["convexcell", r] =>
     match parseRing? r with
     | none => "BAD"
